@@ -13,6 +13,13 @@ CLAIMS['C13'] = dict(
    text='Proof (Lean 4): the checksum code (hand model of checksum.rs, u32 accumulator with checked additions, while-loop finalisation by well-founded recursion) equals the RFC 1071 one\'s-complement checksum over pseudo-header ++ data with the field cleared, for every data string up to 65535 octets, every ignore index (incl. the odd-tail case) and every address pair; no accumulator overflow in that range; the datagram with the checksum inserted verifies (sums to 0xFFFF). Correspondence: all six entry points on every length 0..1024 x 4 patterns x 16 address pairs, model vs implementation, plus an independent RFC 1071 receiver as oracle. The empty-input deviation (returns 0, RFC gives 0xFFFF) is a recorded known finding F13.',
    design='§6 C13', technique='Lean 4 proof (refinement of a hand model to an RFC 1071 spec) + differential correspondence',
    note='trusted: Lean kernel; hand model validated only by the correspondence run; Spec/Rfc1071.lean; the Paris checksum swap on the wire is decided under C11')
+STRAT_NOTE = 'trusted: Lean kernel; hand model Model/Strategy.lean validated only by the correspondence run (script set-up: real Strategy + TracerState via verif-hooks, scripted Network, virtual clock); constants regenerated from the source; CfgOk mirrors Builder::build (compared with the real builder under C16)'
+CLAIMS['C03'] = dict(text='Proof (Lean 4) over a hand model of the tracing state machine tied to strategy.rs by correspondence: for every builder-accepted configuration, every reachable state (any environment, unboundedly many rounds, wrap-around included) and every response, a response that is not genuine (does not name an awaited probe allocated in the current round, fails validation or carries a foreign trace id) leaves the state identical up to the clock; duplicates, previous-round, never-sent, foreign-id and wrong-tuple responses are each shown non-genuine; removing all non-genuine responses from an environment does not change the run.', design='§6 C03', technique='Lean 4 invariant proof over hand model + differential correspondence (scripted network)', note=STRAT_NOTE + '; the pid+i lemma of the CLI is outside the model (DESIGN F15)')
+CLAIMS['C06'] = dict(text='Proof (Lean 4): send guard, TTL progression without gaps or repeats, re-issued TCP probes keep their TTL, restart at first-ttl, liveness of the first probe of every round, for all configurations 1 <= first-ttl <= 254, max-ttl <= 254, max-inflight >= 1 and all environments; tied to strategy.rs by correspondence and an implementation-level monitor of the send_probe log.', design='§6 C06', technique='Lean 4 invariant proof over hand model + differential correspondence', note=STRAT_NOTE)
+CLAIMS['C07'] = dict(text='Proof (Lean 4): from a proved invariant of the state machine (all initial sequences 0..=64511, both max-sequence regimes, unboundedly many rounds): consecutive sequence numbers below 65535, at most 512 per round, every buffer index < 512, no panic in any environment (capacity exhaustion is an error value), forward-or-restart across rounds, Dublin/IPv6 payload fits the buffer, separation of consecutive rounds that together use <= 512 numbers (all ICMP/UDP runs); the residual TCP corner is exhibited by a witness and recorded as known finding F7.', design='§6 C07', technique='Lean 4 invariant proof over hand model with source-translated constants + differential correspondence', note=STRAT_NOTE)
+CLAIMS['C08'] = dict(text='Proof (Lean 4): a round is published in an iteration iff the timing policy holds at the clock reading after the wait (all combinations of min/max/grace incl. zero), the reason names the trigger, the next round starts at the publish instant, a round is never held open once max-round-duration is exceeded; tied to strategy.rs by correspondence under a virtual clock and an independent recomputation of the policy in the harness.', design='§6 C08', technique='Lean 4 proof over hand model + differential correspondence under a virtual clock', note=STRAT_NOTE + '; that one wait is bounded by the read timeout is an assumption about Socket::is_readable')
+CLAIMS['C09'] = dict(text='Proof (Lean 4): round ids advance exactly on publication; with a round limit n a run returns Ok only after exactly n published rounds and never publishes more; the loop never panics; fatal send/receive outcomes end the run with the error; a transient send failure marks exactly the just-allocated slot failed; address-in-use re-issues under the next sequence number with the same TTL and marks the abandoned slot skipped; for every environment.', design='§6 C09', technique='Lean 4 induction over runs of a hand model + differential correspondence with fault scripts', note=STRAT_NOTE + '; the mapping of errno values to ProbeFailed/AddressInUse in net/ipv4.rs, net/ipv6.rs and the visibility of the error in snapshots (Tracer::handle_error) are decided under C11/C20')
+CLAIMS['C14'] = dict(text='Proof (Lean 4): round trip of every RFC 4884 compliant or legacy Time Exceeded / Destination Unreachable message (ICMPv4 and v6, any original datagram whose length attribute fits, any object list, MPLS stacks of n >= 0 entries) through a hand model of the split / iterator / conversion code: payload, extension and exact objects, labels, EXP/S/TTL in order; for arbitrary bytes: quoted part is a prefix, extension a suffix, no overlap, inside the message, object/member counts bounded, iterators are total functions, no panic. Correspondence on every length octet x boundary body lengths x object shapes + corruption stream.', design='§6 C14', technique='Lean 4 proof (round trip against a hand-written RFC 4884/4950 encoder) + differential correspondence', note='trusted: Lean kernel; hand model Model/Ext.lean validated by the correspondence run; Spec/Rfc4884.lean')
 REASONS = {}
 def main():
     props = [json.loads(l) for l in open(os.path.join(V, 'properties.jsonl'))]
